@@ -78,6 +78,21 @@ pub mod basic {
         D(Box<E>),
         F(Vec<E>, u8),
     }
+    /// enums whose names merely end in `Option`
+    #[derive(TypeInfo)]
+    pub enum ExecOption {
+        None,
+        Some(u8),
+    }
+    #[derive(TypeInfo)]
+    pub struct OptionsAndArrays {
+        pub e: ExecOption,
+        pub o: Option<ExecOption>,
+        pub empty_strings: [String; 0],
+        pub tups: [Tup; 2],
+        pub strings: [String; 3],
+        pub nested: [[u8; 2]; 0],
+    }
     #[derive(TypeInfo)]
     pub enum Empty {}
     #[derive(TypeInfo)]
@@ -599,6 +614,7 @@ pub fn all() -> Vec<(&'static str, PortableRegistry)> {
         ("collections", reg_of::<basic::Collections>()),
         ("enum", reg_of::<basic::UsesE>()),
         ("empty_enum", reg_of::<basic::Empty>()),
+        ("options_arrays", reg_of::<basic::OptionsAndArrays>()),
         ("compact", reg_of::<compact::Comp>()),
         ("compact_enum", reg_of::<compact::CompE>()),
         ("compact_generic", reg_of::<compact::UsesCompG>()),
